@@ -1,8 +1,9 @@
 use std::collections::HashMap;
-use shared::rule::Rule;
+use shared::rule::{FilterCondition, Rule};
 use shared::terms::{Term, TriplePattern};
 use shared::triple::Triple;
 use crate::reasoning::Reasoner;
+use crate::reasoning::rules::evaluate_filters;
 
 fn unify_patterns(
     pattern1: &TriplePattern,
@@ -141,7 +142,16 @@ fn rename_rule_variables(rule: &Rule, counter: &mut usize) -> Rule {
         premise: new_premise,
         negative_premise: vec![],
         conclusion: new_conclusions,
-        filters: rule.filters.clone(),
+        // filters name rule variables: they have to follow the renaming
+        filters: rule
+            .filters
+            .iter()
+            .map(|f| FilterCondition {
+                variable: var_map.get(&f.variable).cloned().unwrap_or_else(|| f.variable.clone()),
+                operator: f.operator.clone(),
+                value: var_map.get(&f.value).cloned().unwrap_or_else(|| f.value.clone()),
+            })
+            .collect(),
     }
 }
 
@@ -221,6 +231,21 @@ impl Reasoner {
                             new_premise_results.extend(sub_res);
                         }
                         premise_results = new_premise_results;
+                    }
+                    if !renamed_rule.filters.is_empty() {
+                        // keep only the proofs whose bindings pass the rule's filters
+                        let dict = self.dictionary.read().unwrap();
+                        premise_results.retain(|b| {
+                            let mut ground: HashMap<String, u32> = HashMap::new();
+                            for f in &renamed_rule.filters {
+                                for name in [&f.variable, &f.value] {
+                                    if let Term::Constant(c) = resolve_term(&Term::Variable(name.clone()), b) {
+                                        ground.insert(name.clone(), c);
+                                    }
+                                }
+                            }
+                            evaluate_filters(&ground, &renamed_rule.filters, &dict)
+                        });
                     }
                     results.extend(premise_results);
                 }
